@@ -340,10 +340,11 @@ class StreamableHTTPTransport(Transport):
                     line = line.rstrip("\r")
 
                     if not line:
-                        # Empty line marks end of event
-                        if current_event and event_data:
+                        # Empty line marks end of event; an event without an
+                        # "event:" field has the default type "message"
+                        if event_data:
                             await self._process_sse_event(
-                                current_event, event_data, message_id
+                                current_event or "message", event_data, message_id
                             )
                         current_event = None
                         event_data = []
@@ -360,8 +361,10 @@ class StreamableHTTPTransport(Transport):
                         event_data.append(value)  # Keep formatting
 
             # Process any remaining event
-            if current_event and event_data:
-                await self._process_sse_event(current_event, event_data, message_id)
+            if event_data:
+                await self._process_sse_event(
+                    current_event or "message", event_data, message_id
+                )
 
         except Exception as e:
             logger.error(f"Error processing SSE response: {e}")
@@ -400,10 +403,11 @@ class StreamableHTTPTransport(Transport):
                 line = line.rstrip("\r")
 
                 if not line:
-                    # Empty line marks end of event
-                    if current_event and event_data:
+                    # Empty line marks end of event; an event without an
+                    # "event:" field has the default type "message"
+                    if event_data:
                         await self._process_sse_event(
-                            current_event, event_data, message_id
+                            current_event or "message", event_data, message_id
                         )
                     current_event = None
                     event_data = []
@@ -420,8 +424,10 @@ class StreamableHTTPTransport(Transport):
                     event_data.append(value)  # Keep formatting
 
             # Process any remaining event
-            if current_event and event_data:
-                await self._process_sse_event(current_event, event_data, message_id)
+            if event_data:
+                await self._process_sse_event(
+                    current_event or "message", event_data, message_id
+                )
 
         except Exception as e:
             logger.error(f"Error processing SSE text: {e}")
